@@ -70,7 +70,7 @@ var srcRel = func(*Ctx) M { return M{"source_id": "v1", "relation_type": "rel"} 
 // missing here makes the check exit 2 ("harness outdated"), never a violation.
 var table = map[string]*Route{
 	// not behind the auth middleware
-	"GET /healthz":                r("public", "none", fixed("/healthz", nil)),
+	"GET /healthz":               r("public", "none", fixed("/healthz", nil)),
 	"GET /.well-known/jwks.json": r("public", "none", fixed("/.well-known/jwks.json", nil)),
 
 	"/debug/pprof/":        r("debug", "none", fixed("/debug/pprof/", nil)),
@@ -124,7 +124,7 @@ var table = map[string]*Route{
 		return M{"k": 3, "query_vector": []float32{1, 0, 0}}
 	})),
 	"POST /vector/actions/delete_vector": r("vector_write", "body", action("/vector/actions/delete_vector", func(*Ctx) M { return M{"id": "v3"} })).eff(),
-	"POST /vector/actions/compress":      r("vector_write", "body", action("/vector/actions/compress", func(*Ctx) M { return M{"precision": "int8"} })).async(),
+	"POST /vector/actions/compress":      r("vector_write", "body", action("/vector/actions/compress", func(*Ctx) M { return M{"precision": "float16"} })).async(),
 	"POST /vector/actions/get-vectors":   r("vector_read", "body", action("/vector/actions/get-vectors", func(*Ctx) M { return M{"ids": []string{"v1", "v2"}} })),
 	"POST /vector/actions/reinforce":     r("vector_write", "body", action("/vector/actions/reinforce", func(*Ctx) M { return M{"ids": []string{"v1"}} })).eff(),
 
@@ -229,26 +229,26 @@ var table = map[string]*Route{
 	"GET /compile/status":    r("compile_info", "none", fixed("/compile/status?task_id=none", nil)),
 	"GET /artifacts":         r("artifacts", "query", func(c *Ctx) (string, M) { return "/artifacts?index=" + url.QueryEscape(c.T), nil }),
 	"GET /artifact/{name}": r("artifacts", "query", func(c *Ctx) (string, M) {
-		return "/artifact/" + seg("art-"+c.W.XS) + "?index=" + url.QueryEscape(c.T) + "&entity_id=v1", nil
+		return "/artifact/" + seg("art-"+c.W.XS) + "?index=" + url.QueryEscape(c.T) + "&entity_type=note&entity_id=v1", nil
 	}),
 	"GET /artifact/{name}/history": r("artifacts", "query", func(c *Ctx) (string, M) {
-		return "/artifact/art1/history?index=" + url.QueryEscape(c.T) + "&entity_id=v1", nil
+		return "/artifact/art1/history?index=" + url.QueryEscape(c.T) + "&entity_type=note&entity_id=v1", nil
 	}),
 	"GET /artifact/{name}/at": r("artifacts", "query", func(c *Ctx) (string, M) {
-		return "/artifact/art1/at?index=" + url.QueryEscape(c.T) + "&entity_id=v1&timestamp=1", nil
+		return "/artifact/art1/at?index=" + url.QueryEscape(c.T) + "&entity_type=note&entity_id=v1&time=1", nil
 	}),
 	"GET /artifact/{name}/diff": r("artifacts", "query", func(c *Ctx) (string, M) {
-		return "/artifact/art1/diff?index=" + url.QueryEscape(c.T) + "&entity_id=v1&from=1&to=2", nil
+		return "/artifact/art1/diff?index=" + url.QueryEscape(c.T) + "&entity_type=note&entity_id=v1&v1=1&v2=2", nil
 	}),
 	"GET /artifact/{name}/stale": r("artifacts", "query", func(c *Ctx) (string, M) {
-		return "/artifact/art1/stale?index=" + url.QueryEscape(c.T) + "&entity_id=v1", nil
+		return "/artifact/art1/stale?index=" + url.QueryEscape(c.T) + "&entity_type=note&entity_id=v1", nil
 	}),
 }
 
 // synthetic requests that match no registered pattern (class "unrouted")
 var synthetic = map[string]*Route{
-	"GET /nowhere/{x}":          r("unrouted", "none", func(c *Ctx) (string, M) { return "/nowhere/" + seg(c.W.XS), nil }),
-	"PATCH /kv/{key}":           r("unrouted", "none", func(c *Ctx) (string, M) { return "/kv/" + seg(c.Key), M{"value": "patched"} }),
+	"GET /nowhere/{x}":            r("unrouted", "none", func(c *Ctx) (string, M) { return "/nowhere/" + seg(c.W.XS), nil }),
+	"PATCH /kv/{key}":             r("unrouted", "none", func(c *Ctx) (string, M) { return "/kv/" + seg(c.Key), M{"value": "patched"} }),
 	"POST /vector/indexes/{name}": r("unrouted", "none", func(c *Ctx) (string, M) { return "/vector/indexes/" + seg(c.W.Other), M{"x": 1} }),
 }
 
